@@ -4,8 +4,8 @@ from vverif import seq
 from vverif.core import Result, HarnessError
 
 LEVEL = 'exploration'
-RULE = ('(a) Ftp::ParseIpPort on every "h1,h2,h3,h4,p1,p2" with each component from {0,1,127,255,256,-1,2^32+1,x,empty} (quick, 9^6) '
-        'plus {99999999999, 2^32+127, 2^64+1} (thorough, 12^6), x ftp_sanitycheck on/off x forceIp null/given x result object fresh/'
+RULE = ('(a) Ftp::ParseIpPort on every "h1,h2,h3,h4,p1,p2" with each component from {0,1,127,255,256,-1,2^32+1,x,empty,1000} (quick, 10^6) '
+        'plus {99999999999, 2^32+127, 2^64+1} (thorough, 13^6), x ftp_sanitycheck on/off x forceIp null/given x result object fresh/'
         'already holding an address; (b) Ftp::ParseProtoIpPort on delimiter {|,!,","} x 11 protocol tokens x 20 address tokens (v4, v6, '
         'any-address, out-of-range octets, garbage, empty, 73..79-byte overlong) x 15 port tokens (-1,0,1,1023,1024,65535,65536,70000,'
         '2^32+1,2^32+1024,2^66,x,empty,80x,2000) x closing delimiter same/|/missing x sanitycheck x fresh/preset; reference: inet_pton '
